@@ -10,7 +10,7 @@ SE(s, st, circ, tgt, src) == [id |-> s, st |-> st, circ |-> circ, tgt |-> tgt, s
 GInit == Init /\ hist = <<>>
 GTor ==
   \/ \E c \in CircIds, p \in Purposes, bf \in 1..2 : Launch(c, p, bf) /\ H([a |-> "Launch", ev |-> CE(c, "LAUNCHED")])
-  \/ \E c \in CircIds, r \in Relays : Extend(c, r) /\ H([a |-> "Extend", ev |-> CE(c, "EXTENDED")])
+  \/ \E c \in CircIds, r \in Relays, p \in Purposes : Extend(c, r, p) /\ H([a |-> "Extend", ev |-> CE(c, "EXTENDED")])
   \/ \E c \in CircIds : Built(c) /\ H([a |-> "Built", ev |-> CE(c, "BUILT")])
   \/ \E c \in CircIds : CircGone(c) /\ H([a |-> "CircGone", ev |-> CE(c, IF tc[c].st = "BUILT" THEN "CLOSED" ELSE "FAILED")])
   \/ \E s \in StreamIds, st \in {"NEW", "NEWRESOLVE"}, t \in Targets, sa \in Srcs :
